@@ -92,6 +92,7 @@ pub struct World {
     pub clock: MockClock,
     pub base: Instant,
     pub mx: Arc<Mutex<Vec<Value>>>,
+    last_resets: std::cell::Cell<u32>,
     info_ids: Arc<Mutex<HashMap<usize, i64>>>,
 }
 
@@ -184,6 +185,7 @@ impl World {
             clock,
             base,
             mx,
+            last_resets: std::cell::Cell::new(0),
             info_ids,
         }
     }
@@ -269,7 +271,7 @@ impl World {
                 let s = c.verif_sketch_state();
                 m.insert(
                     "sk".into(),
-                    json!({"on": s.enabled, "size": s.size, "sample": s.sample_size, "resets": s.resets, "tlen": s.table_len}),
+                    json!({"on": s.enabled, "aged": s.resets != self.last_resets.replace(s.resets), "size": s.size, "sample": s.sample_size, "resets": s.resets, "tlen": s.table_len}),
                 );
                 m.insert("va".into(), json!(-1));
                 m.insert("rlen".into(), json!(0));
@@ -320,7 +322,7 @@ impl World {
                 let s = c.verif_sketch_state();
                 m.insert(
                     "sk".into(),
-                    json!({"on": s.enabled, "size": s.size, "sample": s.sample_size, "resets": s.resets, "tlen": s.table_len}),
+                    json!({"on": s.enabled, "aged": s.resets != self.last_resets.replace(s.resets), "size": s.size, "sample": s.sample_size, "resets": s.resets, "tlen": s.table_len}),
                 );
                 m.insert("va".into(), json!(ticks(base, c.verif_valid_after())));
                 let (r, w) = c.verif_channel_lens();
@@ -432,10 +434,12 @@ impl World {
                 }
             }
             "Iter" => {
-                let items: Vec<(u32, u32)> = match self.cache.as_mut().unwrap() {
+                let mut items: Vec<(u32, u32)> = match self.cache.as_mut().unwrap() {
                     AnyCache::U(c) => c.iter().map(|(k, v)| (k.id, v.id)).collect(),
                     AnyCache::S(c) => c.iter().map(|e| (e.key().id, e.value().id)).collect(),
                 };
+                // yield order is arbitrary: report in key order (duplicates are kept)
+                items.sort();
                 ev.insert(
                     "items".into(),
                     Value::Array(items.iter().map(|(k, v)| json!({"k": k, "v": v})).collect()),
